@@ -527,6 +527,46 @@ func c07Run(sc *core.Scenario, keepLog bool, p *c07Pass) *core.Result {
 				return
 			}
 			verify("after-step-error-restart", allowed...)
+			if e.Failed() {
+				return
+			}
+			// Left-overs are removed - also those of operations that come AFTER the failed
+			// step: a message the connector creates and deletes now must be gone from the cache after
+			// the next restart (the clean-up of messages marked for deletion still works).
+			files0 := c07Files(e)
+			pu := e.W.Users[0]
+			var inboxID imap.MailboxID
+			for id, nm := range pu.Conn.MboxNames {
+				if len(nm) == 1 && nm[0] == "INBOX" {
+					inboxID = id
+				}
+			}
+			probe := e.NewMessage(7777, gen.Opts{})
+			pid := pu.Conn.NewMessageID()
+			parsed, _ := imap.NewParsedMessage(probe.Bytes)
+			pu.Conn.RememberLiteral(pid, probe.Bytes, imap.NewFlagSet(), world.SimStart)
+			cr := e.W.Submit(pu, imap.NewMessagesCreated(false, &imap.MessageCreated{Message: imap.Message{ID: pid, Flags: imap.NewFlagSet(), Date: world.SimStart}, Literal: probe.Bytes, MailboxIDs: []imap.MailboxID{inboxID}, ParsedMessage: parsed}))
+			if !cr.Done || cr.Err != nil {
+				e.Fail("after-step-error", "connector MessagesCreated after the failed step and a restart: done=%v err=%v", cr.Done, cr.Err)
+				return
+			}
+			if c07Files(e) != files0+1 {
+				e.Fail("after-step-error", "a message created by the connector after the failed step did not reach the cache (%d files, %d before)", c07Files(e), files0)
+				return
+			}
+			dr := e.W.Submit(pu, imap.NewMessagesDeleted(pid))
+			if !dr.Done || dr.Err != nil {
+				e.Fail("after-step-error", "connector MessageDeleted after the failed step: done=%v err=%v", dr.Done, dr.Err)
+				return
+			}
+			if err := e.W.Restart(); err != nil {
+				e.Fail("restart", "clean restart after the probe failed: %v", err)
+				return
+			}
+			e.St.Probes["cleanup_probe"]++
+			if files1 := c07Files(e); files1 > files0 {
+				e.Fail("leftovers", "a message created and then deleted by the connector after the failed step is still in the cache after a restart: %d files before the probe, %d after (clean-up of messages marked for deletion no longer works)", files0, files1)
+			}
 		}
 		_ = namesBefore
 	})
